@@ -54,6 +54,12 @@ CHECKS = {
     'C19': dict(category='exploration', engine='Tabular', technique='TLA+ Tabular.tla: ToTable/FromTable/linker tables/symbol-table operators with round-trip invariants checked by TLC; emitted expected tables compared with real DataFrames over seven span types and eight flag sets; symbol round trip on parser output',
                 text='Tabular.tla defines the expected table (index, columns in model order, dtype kinds, cells, status/iterations/internal flags), the from_dataframe inverse, per-submodel linker tables and the symbol round trip; TLC checks C19_Shape/RoundTrip/Linker/Symbols on every model shape in the bound and emits the expected tables; the harness builds the real models (extra int/bool/str/float and underscore variables, solved and unsolved) over seven span types, compares the DataFrames cell by cell, re-imports them and round-trips every symbol list.',
                 note='Trusted: TLC; pandas dtype coercions are observed, not modelled; from_dataframe covers class-level variables only.', ref='6.10, 7 (C19)'),
+    'C09': dict(category='model_checking', engine='Container', technique='TLA+ Container.tla: the public container operation alphabet x operand classes as a machine with C09_Shape/Atomic/Strict invariants; TLC exhaustive histories + simulation; every history replayed on VectorContainer, BaseModel and BaseLinker with a full projection after every operation',
+                text='Container.tla states for every (operation, operand class, value kind) whether it must be accepted with a given result, rejected leaving everything unchanged, or is unconstrained by the property; TLC checks shape/dtype preservation, atomic rejection and strict-mode rules on all histories in the slices (every operation x operand once from every state reachable in one prior step; depth-3/4 histories over a reduced alphabet; depth-25 simulation) and emits the expected projection after each step, which the harness compares with names, index order, per-series shape/dtype/values, attributes, strict flag, values matrix, size and nbytes of the real objects.',
+                note='Trusted: TLC; operand-class realisations; NumPy casting semantics; a history is abandoned at its first disagreement.', ref='6.4, 7 (C09)'),
+    'C11': dict(category='model_checking', engine='Container', technique='TLA+ Container.tla action property C11_Indep / C11_Frame (every action changes only its target object): TLC over copy/sibling histories; replay with full projection of all objects and class-level lists plus an identity scan for shared mutable objects',
+                text='The same machine with copies (copy(), copy.copy, deepcopy), fresh siblings and class-level lists as objects; TLC checks that every action leaves all other objects and the class lists unchanged, with the copy taken at every point of a history and mutations (values, added variables/attributes, lags/leads, list mutations, solves) applied to either side; the harness replays on containers, plain/Alias/Tracer/both-mixin models and linkers with nested submodels, projects all objects after every step and walks __dict__ recursively to assert that no two objects share a list, dict, Trace or array memory.',
+                note='Trusted: as C09; the span object passed by the caller is stored by reference and is out of scope (in-place mutation of a span is not an operation).', ref='6.4, 7 (C11), 8'),
 }
 
 NOT_YET = {}
